@@ -161,16 +161,17 @@ def _configs(tier, seed):
     # hand-picked branch cover: weight-decay modes, filtering, grafting kinds, momentum/Nesterov, Shampoo/SOAP
     grid = [
         dict(graft=None, beta1=0.0, momentum=0.0, wd=0.0, decoupled=True, soap=False),
-        dict(graft="adam", beta1=0.9, momentum=0.5, wd=0.1, decoupled=True, nesterov=True, soap=False),
+        dict(graft="adam", beta1=0.9, momentum=0.7, dampening=0.3, wd=0.1, decoupled=True, nesterov=True, soap=False),
         dict(graft="sgd", beta1=0.9, momentum=0.9, wd=0.1, decoupled=False, nesterov=False, bias=False, soap=False),
         dict(graft="rmsprop", beta1=0.5, momentum=0.0, wd=0.0, decoupled=True, soap=True),
-        dict(graft="adagrad", beta1=0.0, momentum=0.5, wd=0.1, decoupled=False, nesterov=True, soap=True),
+        dict(graft="adagrad", beta1=0.0, momentum=0.6, dampening=0.3, wd=0.1, decoupled=False, nesterov=True, soap=True),
         dict(graft=None, beta1=0.9, momentum=0.0, wd=0.1, decoupled=True, soap=True),
     ]
     for g in grid:
         cfg = e2e.make_config(random.Random(rng.random()))
         cfg.update(g)
-        cfg.update(freq=2, start=3, override=0, ignored=[], maxdim=3, merge=True)
+        # scalars that are NOT powers of two, so that a re-association / fusion of a multiply-add by the compiler changes the rounding
+        cfg.update(freq=2, start=3, override=0, ignored=[], maxdim=3, merge=True, lr=0.03)
         cfg["beta3"] = -1.0 if not cfg["beta1"] else rng.choice([-1.0, cfg["beta1"] * 0.5])
         base.append(cfg)
     if tier != "quick":
